@@ -42,6 +42,17 @@ void __wrap_DVectNorm(dvector *v, dvector *n) {
   __real_DVectNorm(v, n);
 }
 
+/* io.c commits every INSERT on its own; with the default rollback journal that is a journal file created,
+ * synced and deleted per number written.  Durability is not part of the property, so every connection the
+ * library opens gets an in-memory journal and no fsync -- the SQL the library executes is unchanged. */
+#include <sqlite3.h>
+int __real_sqlite3_open(const char *f, sqlite3 **db);
+int __wrap_sqlite3_open(const char *f, sqlite3 **db) {
+  int rc = __real_sqlite3_open(f, db);
+  if (rc == SQLITE_OK && !getenv("C16_DEFAULT_JOURNAL")) sqlite3_exec(*db, "PRAGMA journal_mode=MEMORY; PRAGMA synchronous=OFF;", 0, 0, 0);
+  return rc;
+}
+
 /* Allocation budget: a reader that takes garbage for a dimension asks for gigabytes (row by row, so the
  * allocator never refuses).  Every library call of a history gets a budget of 64 MB of requested bytes
  * (the models need < 2 MB); exceeding it is a violation of the call in progress, not an OOM kill. */
